@@ -54,7 +54,17 @@ static inline route_t uctx_find_udp_socket(struct io_context *ios, void *sock, e
 extern route_t g_out_route;
 static inline route_t uctx_get_outgoing_route(struct io_context *ios, addr_t a) { (void)ios; (void)a; __CPROVER_assume(g_out_route.len >= 0 && g_out_route.len <= 400); return g_out_route; }
 static inline void route_prepend(route_t *r, route_t front) { *r = route_cat(front, *r); }
-extern size_t g_ubind_calls; 
+extern size_t g_ubind_calls; extern ep_t g_ubind_ep, g_ubind_result; extern void *g_ubind_sock; extern int g_ubind_ec;
+/* io_context::bind_udp_socket (under contract in the ioctx / simnet units): arbitrary error, or a concrete valid endpoint */
+ep_t nondet_ep(void);
+static inline ep_t uctx_bind_udp_socket(struct io_context *ios, void *sock, ep_t ep, int *ec)
+{
+  (void)ios; int e = nondet_int(); __CPROVER_assume(e >= 0);
+  ep_t r = nondet_ep(); __CPROVER_assume(e != 0 ? r == EP_NONE : (r != EP_NONE && EP_VALID(r)));
+  g_ubind_calls = g_ubind_calls + 1; g_ubind_ep = ep; g_ubind_sock = sock; g_ubind_result = r; g_ubind_ec = e; *ec = e;
+  return r;
+}
+
 /* p.buffer.insert(end, data(i), data(i) + size(i)): the datagram's payload is the concatenation of the send buffers, in order */
 static inline void buf_append(buf_t *dst, bufseq_t b, size_t k)
 {
@@ -74,7 +84,8 @@ static inline void pcap_log_udp_rec(struct pcap *log, struct packet p, ep_t src,
 /* forward_packet from a UDP socket */
 extern size_t g_ufwd_count; extern struct packet g_ufwd_last;
 static inline void udp_forward_packet(struct packet p) { g_ufwd_count++; g_ufwd_last = p; }
-#define USEND_GHOST g_umtu_calls, g_umtu_a, g_umtu_b, g_umtu_result, g_find_calls, g_find_dst, g_find_result, g_logudp_calls, g_logudp_pkt, g_logudp_src, g_logudp_dst, g_ufwd_count, g_ufwd_last, g_ubind_calls
+#define UBIND_GHOST g_ubind_calls, g_ubind_ep, g_ubind_result, g_ubind_sock, g_ubind_ec
+#define USEND_GHOST g_ubind_ep, g_ubind_result, g_ubind_sock, g_ubind_ec, g_umtu_calls, g_umtu_a, g_umtu_b, g_umtu_result, g_find_calls, g_find_dst, g_find_result, g_logudp_calls, g_logudp_pkt, g_logudp_src, g_logudp_dst, g_ufwd_count, g_ufwd_last, g_ubind_calls
 extern size_t G_total, G_sz0, G_sz1; extern int G_bound_ok;
 #define SPEC_TX_NIC(bytes) F2I(FMUL(FDIV(1000000000.0, I2F(NIC_BW)), I2F(bytes)))
 #define UDP_Q_FRESH(self) PL_FRESH((self)->m_incoming_queue)
